@@ -60,7 +60,7 @@ def make_entries(fmt, n, lens, rng):
     out, header = [], ""
     for i in range(n):
         l = lens[i % len(lens)]
-        num = str(10 ** (l - 1) + i) if l > 1 else str((i + 1) % 10)
+        num = str(10 ** (l - 1) + i) if l > 1 else str((i + 1) % 10)      # (l == 0: a record with an EMPTY sequence, fastq / two-line fasta only)
         if fmt in ("k1", "bed"):
             out.append(f"c{num}\t{num}\t{int(num) + 5}\n")
         elif fmt == "bed6":
@@ -85,9 +85,10 @@ def make_entries(fmt, n, lens, rng):
         elif fmt == "gtf":
             out.append(f"c{num}\tsrc\texon\t{num}\t{int(num) + 5}\t.\t+\t.\tgene_id \"g{i}\"; transcript_id \"t{i}\";\n")
         elif fmt in ("k4", "fastq"):
-            out.append(f"@r{num}\n{_w(rng, l)}\n+\n{'I' * l}\n")
+            z = 0 if l == 0 else l
+            out.append(f"@r{num if l else 'z%d' % i}\n{_w(rng, z)}\n+\n{'I' * z}\n")
         elif fmt in ("k2", "fasta2line"):
-            out.append(f">s{num}\n{_w(rng, l)}\n")
+            out.append(f">s{num if l else 'z%d' % i}\n{_w(rng, l)}\n")
         elif fmt.startswith("fasta"):
             width = int(fmt[5:] or 80) if fmt != "fasta" else 80
             s = _w(rng, max(l, 1))
@@ -238,16 +239,31 @@ def cases(tier, rng):
                         yield {"op": "entries", "fmt": fmt, "header": header, "ents": ents, "gz": gz, "nl": nl, "crlf": crlf,
                                "lazy": lazy, "k": k, "longest": longest, "keep": (k + len(ents)) % 2 == 0}
 
-    # --- files larger than one chunk at the chunk sizes people actually use (1 MiB and the 5,000,000-byte default): buffers of
-    #     earlier chunks must still be intact when they are looked at after later reads
+    # --- records with an EMPTY sequence (the file then holds blank lines, also at its very end)
+    for fmt in ("fastq", "fasta2line"):
+        for lens in ([0], [2, 0], [0, 3], [1, 0, 0], [0, 2, 0]):
+            for n in ((1, 2, 3) if big else (len(lens),)):
+                ents, header = make_entries(fmt, n, lens, rng)
+                L = len("".join(ents))
+                ks = list(range(1, L + 3)) if big else sorted(set(rng.sample(range(1, L + 3), min(6, L + 2)) + [L, L + 1, L - 1 or 1]))
+                for k in ks:
+                    for gz, nl, lazy in (itertools.product((False, True), (True, False), (True, False)) if big else [(rng.random() < 0.5, True, rng.random() < 0.5), (False, False, False)]):
+                        yield {"op": "entries", "fmt": fmt, "header": header, "ents": ents, "gz": gz, "nl": nl, "crlf": False, "lazy": lazy, "k": k,
+                               "longest": max(len(e) for e in ents) + 2}
+    # --- files larger than one chunk at the chunk sizes people actually use (1 MiB, the 5,000,000-byte default, 8 MiB, 16 MiB):
+    #     buffers of earlier chunks must still be intact when they are looked at after later reads. Files above 4 MB are compared by
+    #     a streaming checksum per column (data bytes and row lengths) instead of Python rows.
     for fmt in (("fastq", "bed6", "fasta") if big else (rng.choice(["fastq", "bed6"]),)):
         base, header = make_entries(fmt, 40, [90, 130, 200], rng)
         per = len("".join(base))
-        for k, total in (((1 << 20, 2_400_000), (5_000_000, 11_000_000)) if big else ((1 << 20, 2_400_000),)):
+        sizes = ((1 << 20, 2_400_000), (5_000_000, 11_000_000), (1 << 23, 19_000_000), (1 << 24, 36_000_000)) if big else ((1 << 20, 2_400_000), (1 << 23, 19_000_000))
+        for k, total in sizes:
+            if total > 12_000_000 and fmt != "fastq":
+                continue
             ents = base * (total // per + 1)
-            for gz, lazy in (((False, False), (False, True), (True, False)) if big else ((False, rng.random() < 0.5),)):
+            for gz, lazy in (((False, False), (False, True), (True, False)) if (big and total < 12_000_000) else ((False, rng.random() < 0.5),)):
                 yield {"op": "entries", "fmt": fmt, "header": header, "ents": ents, "gz": gz, "nl": True, "crlf": False, "lazy": lazy, "k": k,
-                       "longest": max(len(e) for e in base) + 2, "keep": rng.random() < 0.5}
+                       "longest": max(len(e) for e in base) + 2, "keep": rng.random() < 0.5, "digest": total > 4_000_000}
     # --- the documented max_chunk_size keyword: the read may refuse (no complete entry within the cap) but a read that
     #     completes must still deliver every entry
     for fmt in fmts:
@@ -329,6 +345,31 @@ def _num(x):
     return str(x)
 
 
+def table_digest(t, state):
+    """streaming checksum of every column of a table (raw data bytes and row lengths), composable over chunks"""
+    import zlib
+    from bionumpy.encoded_array import EncodedArray, EncodedRaggedArray
+    from npstructures import RaggedArray
+    if hasattr(t, "get_data_object"):
+        t = t.get_data_object()
+    for f in dataclasses.fields(t):
+        v = getattr(t, f.name)
+        d, l = state.setdefault(f.name, [0, 0])
+        if isinstance(v, (EncodedRaggedArray, RaggedArray)):
+            raw = v.ravel()
+            raw = raw.raw() if hasattr(raw, "raw") else raw
+            state[f.name][0] = zlib.crc32(np.ascontiguousarray(np.asarray(raw)).tobytes(), d)
+            state[f.name][1] = zlib.crc32(np.ascontiguousarray(np.asarray(v.lengths, dtype=np.int64)).tobytes(), l)
+        elif isinstance(v, np.ndarray) and v.dtype != object and v.ndim == 1:
+            state[f.name][0] = zlib.crc32(np.ascontiguousarray(v).tobytes(), d)
+        else:
+            # padded / fixed-width text (identifiers): the width depends on the chunk, so hash the strings themselves
+            items = v.tolist() if hasattr(v, "tolist") else to_py(v)
+            state[f.name][0] = zlib.crc32(("\n".join(map(str, items)) + "\n").encode(), d)
+    state["__n__"] = state.get("__n__", 0) + len(t)
+    return state
+
+
 def table_rows(t):
     if hasattr(t, "get_data_object"):
         t = t.get_data_object()
@@ -384,6 +425,21 @@ def impl(c):
         path = os.path.join(_tmpdir(), f"f{os.getpid()}{suffix}" + (".gz" if c["gz"] else ""))
         with (gzip.open if c["gz"] else open)(path, "wb") as fh:
             fh.write(text.encode())
+        if c.get("digest"):
+            try:
+                with bnp.open(path, buffer_type=bt, lazy=c["lazy"]) as f:
+                    whole = table_digest(f.read(), {})
+                st = {}
+                with bnp.open(path, buffer_type=bt, lazy=c["lazy"]) as f:
+                    if c.get("keep"):
+                        for chunk in list(f.read_chunks(min_chunk_size=c["k"])):
+                            table_digest(chunk, st)
+                    else:
+                        for chunk in f.read_chunks(min_chunk_size=c["k"]):
+                            table_digest(chunk, st)
+                return {"whole": whole, "chunked": st}
+            except Exception as e:
+                return {"whole": None, "err": _errname(e)}
         try:
             with bnp.open(path, buffer_type=bt, lazy=c["lazy"]) as f:
                 whole = table_rows(f.read())
